@@ -11,11 +11,15 @@ Definition qrow_tuple (r : qrow) : qrowT :=
 Fixpoint tab_cut (t : list (list Q * Q)) (k : list Q) : Q :=
   match t with [] => (1#1)%Q | (a, b) :: r => if eqb a k then b else tab_cut r k end.
 
-Definition c12_in := (list (str * nat) * list (list Q * Q) * nat * list (list str) * list precT)%type.
+(* last component: the experiments of an experimental design, in its order (None: no design, experiments = sorted names of the rows) *)
+Definition c12_in := (list (str * nat) * list (list Q * Q) * nat * list (list str) * list precT * option (list str))%type.
 Definition c12_out := res (list str * list qrowT).
 Definition run12 (c : c12_in) : c12_out :=
-  let '(ibaq, cuts, ns, groups, rows) := c in
-  match quantify ibaq (tab_cut cuts) ns groups (map mk_prec rows) with
+  let '(ibaq, cuts, ns, groups, rows, design) := c in
+  match (match design with
+         | None => quantify ibaq (tab_cut cuts) ns groups (map mk_prec rows)
+         | Some dexps => quantify_design ibaq (tab_cut cuts) ns groups (map mk_prec rows) dexps
+         end) with
   | Ok (e, l) => Ok (e, map qrow_tuple l)
   | Raise x => Raise x
   end.
@@ -23,8 +27,8 @@ Definition chk12 (c : c12_in * c12_out) : bool := eqb (run12 (fst c)) (snd c).
 
 (* TMT reporter cells: (input, number of reporter columns per experiment) against the cells of every written row *)
 Definition run12t (c : c12_in * nat) : list (list Q) :=
-  let '(ibaq, cuts, ns, groups, rows) := fst c in
-  quantify_tmt (tab_cut cuts) (snd c) groups (map mk_prec rows).
+  let '(ibaq, cuts, ns, groups, rows, design) := fst c in
+  quantify_tmt (tab_cut cuts) (snd c) groups (map mk_prec rows) design.
 (* None: the implementation raised (a protein missing from the iBAQ table): the model of the other columns must raise as well *)
 Definition chk12t (c : (c12_in * nat) * option (list (list Q))) : bool :=
   match snd c with
